@@ -29,7 +29,7 @@ PROPS = {
         "projection": "completion (result class, wall-clock bound, panic) of every request call; final lifecycle observables",
         "mismatch_is_input": True,
         "timeout": {"quick": 1500, "thorough": 6000},
-        "level_text": "Coq theorems on three mechanism models. Waiters.v: a call that has written its request always has its deadline step enabled and that step finishes it, whatever the peer did; a call waiting while the connection is recycled (waiter sweep) returns 'lost', never panics or hangs. Life.v (lifecycle of the repaired client: Close with its once, losses, the recovery loop's head / dial / auth steps, writes, goroutine exits): no interleaving of any length reaches a panic state (nil connection, double close of a channel) and a write on a closed or replaced connection is an immediate error. Recovery.v (C08): every attempt ends. PARTIAL: the numeric bound request+dial+auth timeouts is measured, not proved - the models have no clock; lock acquisition order (the repaired self-deadlock) is covered by scenario only. Tie: peer scripts silence / drop after every byte k of the response / server close packet / garbage / refused dials / rejected RECONNECT / silent AUTH / concurrent Close, calls issued before, during and after the fault, TCP and WebSocket; every call under a watchdog and recover(); histories replayed by the Waiters and Life models.",
+        "level_text": "Coq theorems on three mechanism models. Waiters.v: a call that has written its request always has its deadline step enabled and that step finishes it, whatever the peer did; a call waiting while the connection is recycled (waiter sweep) returns 'lost', never panics or hangs. Life.v (lifecycle of the repaired client: Close with its once, losses, the recovery loop's head / dial / auth steps, writes, goroutine exits): no interleaving of any length reaches a panic state (nil connection, double close of a channel) and a write on a closed or replaced connection is an immediate error. Recovery.v (C08): every attempt ends. PARTIAL: the numeric bound request+dial+auth timeouts is measured, not proved - the models have no clock; of the lock interactions only the one place where a lock holder waits for something other than a timer (Close vs another closer of the connection, Model/CloseLock.v, theorems in Properties/C14.v) is modelled; the rest (the repaired self-deadlock of closeByServer) is covered by scenario. Tie: peer scripts silence / drop after every byte k of the response / server close packet / garbage / refused dials / rejected RECONNECT / silent AUTH / concurrent Close, calls issued before, during and after the fault, TCP and WebSocket; every call under a watchdog and recover(); histories replayed by the Waiters and Life models.",
         "level_note": "Trusted: kernel, extraction, harness (scripted peers, watchdog). Partial: wall-clock bound measured with 1.2 s scheduling slack; lock discipline not modelled.",
         "assumptions": ["Go select with a ready timer case eventually runs", "context deadlines fire"],
         "modelled": "client.Do/recv/deadline, waiter sweep on reconnectDial, Close/closeOnce, reconnecting loop phases, conn slot never nil after Dial",
@@ -40,7 +40,7 @@ PROPS = {
         "projection": "close callbacks, reconnect callbacks, connections and open sockets at the peer, connection goroutines",
         "mismatch_is_input": True,
         "timeout": {"quick": 1500, "thorough": 6000},
-        "level_text": "Coq theorems on the lifecycle model (Model/Life.v) for every interleaving, of any length, of user Close, connection losses, the recovery loop's steps (loop head with its closed / give-up checks, dial done ok or failed, auth done ok or failed), request writes and goroutine exits, for every MaxReconnect: no panic state is reachable (second close of closeCh by a later give-up, send on a closed queue - the queues are never closed, nil connection); the close callback count is 1 iff closed else 0; no dial is begun, no frame written and no after-reconnect callback run after Close (counters of late events stay 0) and every connection, including one whose dial was in flight at Close, ends closed; Close itself is a single step without waits. Tie: Close injected at idle / k calls in flight / dispatcher busy in a handler / reader holding a frame (tcp.before-add gate) / caller about to enqueue (conn.write.before-enqueue gate) / recovery backing off / authenticating / give-up fired or about to fire, TCP and WebSocket; oracles Close < 1 s, one callback, nothing at the peer afterwards, no panic; final observables compared with the model run.",
+        "level_text": "Coq theorems on the lifecycle model (Model/Life.v) for every interleaving, of any length, of user Close, connection losses, the recovery loop's steps (loop head with its closed / give-up checks, dial done ok or failed, auth done ok or failed), request writes and goroutine exits, for every MaxReconnect: no panic state is reachable (second close of closeCh by a later give-up, send on a closed queue - the queues are never closed, nil connection); the close callback count is 1 iff closed else 0; no dial is begun, no frame written and no after-reconnect callback run after Close (counters of late events stay 0) and every connection, including one whose dial was in flight at Close, ends closed; Close itself is a single step without waits. Lock model (Model/CloseLock.v: client.Close holding the client's read lock while conn.Close may wait for the connection's once, whose body - run by another closer - ends in the callback that takes the write lock unless the client is closed; any number of other read-lock holders; writer-preferring RWMutex): in every reachable state some thread can move until all are done, every step decreases a measure, the cycle user-waits-for-once / reader-waits-for-write-lock is unreachable; without the closed test in the callback the same schedule deadlocks (witness). Tie: Close injected at idle / k calls in flight / dispatcher busy in a handler / reader holding a frame (tcp.before-add gate) / caller about to enqueue (conn.write.before-enqueue gate) / recovery backing off / authenticating / give-up fired or about to fire, TCP and WebSocket; oracles Close < 1 s, one callback, nothing at the peer afterwards, no panic; final observables compared with the model run.",
         "level_note": "Trusted: kernel, extraction, harness, hook points. 'Promptly' is measured (1 s), not proved. The real interleaving is forced only at the listed points; the theorems cover all interleavings of the model's atomic steps, whose atomicity (one lock-protected region or one channel operation each) is argued in DESIGN.md.",
         "assumptions": ["sync.Once runs its body once", "closing a closed channel panics (Go semantics)"],
         "modelled": "client.Close/closeOnce, onConnClose, reconnecting loop, reconnectDial, tcpConn/wsConn Close and goroutine exits",
